@@ -178,9 +178,9 @@ def run(ctx) -> None:
     with scratch("c09_") as root:
         n = 0
         traces, metas, tinfo = [], [], []
+        jobs = []
         for k in chosen:
             L, CS, W, pre, ow, fc, ec, wh, kl, bs = k
-            c = dict(L=L, CS=CS, W=W, Pre=pre, Ow=ow, FaultChunk=fc, EmptyCentre=ec, Where=wh, Kill=kl, Buf=bs)
             variants = [("apply", None)]
             if fc and wh != "reader":
                 variants = [("apply", "injected_" + wh)] + ([("divide", "injected_" + wh)] if not ec else [])
@@ -195,19 +195,14 @@ def run(ctx) -> None:
                 for s in range(nsched):
                     n += 1
                     kill = None if kl == "none" else "init" if kl == "init" else ("get", rng.randrange(0, -(-L // CS) * W + 2))
-                    res = pipeline.run_creation(yaw, root / f"r{n}", L=L, CS=CS, W=W, pre=pre, overwrite=ow, fault=fault,
-                                                fault_chunk=fc, empty_centre=ec, mode=mode, seed=rng.randrange(1 << 30), where=wh, kill=kill, buf=bs)
-                    exp_new = pipeline.expected_records(pipeline.input_frame(L), ec)
-                    proj = classify(yaw, c, res, exp_new)
-                    ctx.evaluated(1, (k, mode, fault, s) if (fc or ec or pre != "absent" or W > 1) else None)
-                    ctx.validated(1)
-                    judge(ctx, c, fault, mode, res, proj, exp_new, allowed)
-                    if res["kind"] != "deadlock":
-                        traces.append(pipeline.trace_of(res, proj))
-                        metas.append(dict(cfg=c))
-                        tinfo.append(dict(scenario=c, mode=mode, fault=fault))
-                    if len(ctx.samples) < 5 and (fc or pre != "absent"):
-                        ctx.sample(dict(scenario=c, mode=mode, fault=fault, real_projection=proj, model_allows=sorted(allowed[k])))
+                    jobs.append((k, mode, fault, s, kill, rng.randrange(1 << 30), str(root / f"r{n}"), sorted(allowed[k])))
+        from harness import par
+
+        for emitted in par.pmap(ctx, scenario_job, jobs):
+            for tr, meta, info in emitted:
+                traces.append(tr)
+                metas.append(meta)
+                tinfo.append(info)
         trace_validation(ctx, traces, metas, tinfo)
         # depth-first over ALL schedules of the smallest multiprocessing scenarios
         for (L, CS, W, fc, wh) in [(2, 1, 2, 0, "reader"), (2, 1, 2, 2, "reader"), (3, 2, 2, 1, "reader"), (2, 1, 2, 2, "worker"), (2, 1, 2, 1, "writer")]:
@@ -232,6 +227,32 @@ def run(ctx) -> None:
             ctx.extra.setdefault("dfs_schedules", []).append(dict(L=L, CS=CS, W=W, fault_chunk=fc, where=wh, schedules=nrun, exhausted=nrun < limit))
         # faults that strike before the pipeline starts
         pre_pipeline(ctx, yaw, root)
+
+
+def scenario_job(ctx, job) -> None:
+    """One scenario x variant x schedule on the real library (runs in a worker process)."""
+    import shutil
+    from pathlib import Path
+
+    yaw = data.import_yaw()
+    k, mode, fault, s, kill, seed, rootdir, allowed_k = job
+    L, CS, W, pre, ow, fc, ec, wh, kl, bs = k
+    c = dict(L=L, CS=CS, W=W, Pre=pre, Ow=ow, FaultChunk=fc, EmptyCentre=ec, Where=wh, Kill=kl, Buf=bs)
+    root = Path(rootdir)
+    try:
+        res = pipeline.run_creation(yaw, root, L=L, CS=CS, W=W, pre=pre, overwrite=ow, fault=fault,
+                                    fault_chunk=fc, empty_centre=ec, mode=mode, seed=seed, where=wh, kill=kill, buf=bs)
+        exp_new = pipeline.expected_records(pipeline.input_frame(L), ec)
+        proj = classify(yaw, c, res, exp_new)
+        ctx.evaluated(1, (k, mode, fault, s) if (fc or ec or pre != "absent" or W > 1) else None)
+        ctx.validated(1)
+        judge(ctx, c, fault, mode, res, proj, exp_new, {cfg_key(c): {tuple(a) for a in allowed_k}})
+        if res["kind"] != "deadlock":
+            ctx.emit((pipeline.trace_of(res, proj), dict(cfg=c), dict(scenario=c, mode=mode, fault=fault)))
+        if (fc or pre != "absent") and s == 0:
+            ctx.sample(dict(scenario=c, mode=mode, fault=fault, real_projection=proj, model_allows=allowed_k))
+    finally:
+        shutil.rmtree(root, ignore_errors=True)
 
 
 def trace_validation(ctx, traces, metas, tinfo):
